@@ -258,6 +258,15 @@ def shape(t, owner=None):
             k = alias_of(base, f) or f.name
             # named tuples inside this field: the field's engine (as_dict / as_list) over the owner's option
             eng_ = f.metadata.get("serialize")
+            if callable(eng_) and eng_ not in (str, int, float, bool):
+                # a field-level serializer: its declared return type is what the field holds (A2)
+                import inspect as _inspect
+
+                ra = _inspect.signature(eng_).return_annotation
+                if ra is _inspect.Signature.empty or isinstance(ra, str):
+                    raise ref.Unsupported("field serializer without an evaluated return annotation")
+                req[k] = shape(ra, base)
+                continue
             _NT_OWNER.append(_owner_nt_as_dict(base))
             _NT_CTX.append(True if eng_ == "as_dict" else False if eng_ == "as_list" else _NT_OWNER[-1])
             try:
@@ -631,6 +640,21 @@ class TDS(TypedDict):
 class _NtD(Dialect):
     namedtuple_as_dict = True
 
+def _ser_years(v) -> List[int]:
+    return [v.year]
+
+def _ser_map(v) -> Dict[str, List[int]]:
+    return {"y": [v.year]}
+
+@dataclass
+class SerOverride(DataClassDictMixin):
+    d: datetime.date = field(default=datetime.date(2020, 1, 2), metadata={"serialize": _ser_years})
+    m: datetime.date = field(default=datetime.date(2020, 1, 2), metadata={"serialize": _ser_map})
+
+@dataclass
+class AnnGen(DataClassDictMixin):
+    g: Annotated[Gen[int], "m"]
+
 @dataclass
 class NtOptDictEngList(DataClassDictMixin):
     p: NTS = field(default=NTS(1), metadata={"serialize": "as_list"})
@@ -675,7 +699,7 @@ SCHEMA_TYPES = [
     "Dict[str, int]", "dict", "Dict[int, str]", "Dict[E1, int]", "Mapping[str, Optional[int]]", "collections.OrderedDict[str, int]", "collections.ChainMap[str, int]",
     "collections.Counter[str]", "DefaultDict[str, List[int]]", "NTS", "TDS", "List[NTS]", "Dict[str, TDS]", "NTI", "Annotated[int, 'm']",
     "Leaf", "Aliased", "Outer", "List[Leaf]", "Optional[Leaf]", "Dict[str, Outer]", "Gen[int]", "TwoGen", "TwoSame", "Tuple[Leaf, Leaf]", "Union[Leaf, Aliased]",
-    "NtOptDictEngList", "NtOptListEngDict", "NtEngineOnly", "NtDialectDict", "NtItemEngine",
+    "NtOptDictEngList", "NtOptListEngDict", "NtEngineOnly", "NtDialectDict", "NtItemEngine", "SerOverride", "AnnGen",
 ]
 
 KNOWN_TAGS = {
@@ -683,7 +707,8 @@ KNOWN_TAGS = {
     "Tuple[int, Unpack[Tuple[str, str]]]": "unpack-fixed", "Tuple[int, Unpack[Tuple[str, str]], float]": "unpack-fixed", "Tuple[Unpack[Tuple[int, str]]]": "unpack-fixed",
     "Dict[int, str]": "nonstr-keys", "Dict[E1, int]": "",
     "TwoGen": "shared-def", "TwoSame": "shared-def",
-    "NtItemEngine": "item-engine",
+    "NtItemEngine": "item-engine", "SerOverride": "item-engine",
+    "AnnGen": "annotated-generic",
 }
 
 
@@ -716,13 +741,20 @@ def c06_task(payload):
                 prefix = d.definitions_root_pointer
                 defs = doc.get("$defs") or (doc.get("components", {}) or {}).get("schemas") or {}
                 sub = Sub(doc, defs, prefix)
-                probs = sub.chk(doc, sh)
+                try:
+                    probs = sub.chk(doc, sh)
+                    sample_txt = json.dumps(doc)[:500]
+                except RecursionError:
+                    probs = ["the produced schema nests without bound (recursion limit reached while reading it)"]
+                    sample_txt = "<unbounded nesting>"
                 ob = dict(id=oid, unit="SHAPE(T) <= L(build_json_schema(T))", status="proved" if not probs else "refuted",
-                          detail="; ".join(sorted(set(probs)))[:700], sample=json.dumps(doc)[:500] + "   ## SHAPE: " + repr(sh)[:300])
+                          detail="; ".join(sorted(set(probs)))[:700], sample=sample_txt + "   ## SHAPE: " + repr(sh)[:300])
                 if probs:
                     ob["witness"] = concrete_witness(mod, texpr, doc, dname)
                 obs.append(ob)
         # distinct classes / generic specialisations never share one definition
+        if any(o["status"] != "proved" and "raised" in o.get("detail", "") for o in obs):
+            return {"obligations": obs}  # the schema cannot be built at all: already reported per dialect
         dcs = reachable_dataclasses(mod.T)
         if dcs:
             js = mod.build_json_schema(mod.T, all_refs=True).to_dict()
